@@ -9,6 +9,7 @@ Ghost representation of the mutable maps (A-dict):
   time.time()     : monotone ghost clock
 Inner client calls go to an oracle: return a result, raise an OSError-class error, or raise another Exception.
 """
+import ast
 import z3
 
 from pyvc import extract, ghost
@@ -479,6 +480,9 @@ def verify_safely_run_func(E, prop):
             calls = s.ghost["inner_calls"]
             F, D, R = s.heap[f["_failed_clients"].ref], s.heap[f["_dead_clients"].ref], s.heap[f["hasher"].ref]
             emit_wf(E, prop, q, s, me, o.kind)
+            Cn = s.heap[f["clients"].ref]
+            E.oblige("%s/%s/frame(the-client-table-is-untouched)%s" % (prop, short(q), E.case_suffix), s,
+                     z3.And(Cn["mem"] == s0["C"]["mem"], Cn["cid"] == s0["C"]["cid"]), func=q)
             ncalls = len(calls)
             inner_exc = s.ghost.get("inner_exc")
             # ---- escapes: only the failing server's own error, and nothing with ignore_exc
@@ -513,6 +517,10 @@ def verify_safely_run_func(E, prop):
                 E.oblige("%s/%s/success(result-returned;failure-record-cleared;rotation-kept-unless-evicted)%s" % (prop, short(q), E.case_suffix), s, goal, func=q)
             else:
                 is_os = E.isinst_pred(inner_exc, "OSError") if not is_subclass(inner_exc.cls, "OSError") else z3.BoolVal(True)
+                recorded = z3.Implies(is_os, z3.Or(z3.And(z3.Select(F["mem"], srv), z3.Select(F["ftime"], srv) >= t_call),
+                                                   z3.And(z3.Select(D["mem"], srv), z3.Not(z3.Select(R["mem"], nm)))))
+                E.oblige("%s/%s/failure(a-connection-failure-is-recorded:failure-record-with-its-time,or-evicted)%s" % (prop, short(q), E.case_suffix), s,
+                         recorded, func=q)
                 not_single = z3.Implies(z3.And(z3.Not(wasF), ra > 0, is_os),
                                         z3.And(z3.Select(R["mem"], nm), z3.Select(F["mem"], srv), z3.Select(F["attempts"], srv) == 0))
                 E.oblige("%s/%s/failure(not-evicted-by-a-single-failure-when-retries-are-configured)%s" % (prop, short(q), E.case_suffix), s, not_single, func=q)
@@ -522,6 +530,99 @@ def verify_safely_run_func(E, prop):
                     E.oblige("%s/%s/failure(swallowed-only-with-ignore_exc,default-returned)%s" % (prop, short(q), E.case_suffix), s,
                              z3.BoolVal(ign and isinstance(o.val, OpaqueV) and o.val.t.eq(default.t)), func=q)
     E.case_suffix = ""
+
+
+def verify_safely_run_set_many(E, prop):
+    """_safely_run_set_many (with _set_many inlined): the twin of _safely_run_func for batches. Same failover clauses -
+    contact rule, failure bookkeeping, escapes; the returned list of failed keys is not specified here (values, key sets and
+    the filtered comprehension are opaque: A-filter)."""
+    q = H + "._safely_run_set_many"
+    E.inline |= {H + ".remove_server", H + "._mark_failed_server", H + "._set_many"}
+
+    def comp_hook(E_, e, itv, s, fx):
+        if isinstance(e, ast.ListComp) and isinstance(itv, OpaqueV):
+            # A-filter: a filtered comprehension over the caller's mapping is some list (no side effect, element and
+            # filter are pure: `key`, `key not in failed`)
+            n = z3.Int(fresh_name("n_kept"))
+            s.assume(n >= 0)
+            return [Ev(s, ghost.new_pyarr(s, None, n))]
+        return None
+
+    def opaque_method(v, mname, s, args, kwargs, fx, site):
+        if mname == "keys" and not args:
+            return [Ev(s, OpaqueV(z3.Function("dict_keys", Py, Py)(v.t), tag="keys"))]
+        raise OutOfReach("opaque method " + mname)
+    saved_hook, saved_om = getattr(E, "comprehension_hook", None), getattr(E, "opaque_method", None)
+    E.comprehension_hook, E.opaque_method = comp_hook, opaque_method
+    for ign in (False, True):
+        E.case_suffix = "/ignore_exc=%s" % ign
+        st, me = setup(E, ign)
+        f = st.heap[me.ref]
+        s0 = snapshot(st, me)
+        cid = z3.Int("client_id")
+        client = HClientV(cid)
+        srv = server_of(cid)
+        nm = node_name(srv)
+        st.assume(z3.Select(s0["R"]["mem"], nm), z3.Select(s0["C"]["mem"], nm), z3.Select(s0["C"]["cid"], nm) == cid)
+        values = OpaqueV(z3.Const("batch_values", Py), tag="values")
+        a0, k0 = OpaqueV(z3.Const("a0", Py)), OpaqueV(z3.Const("k0", Py))
+        ra, rt = f["retry_attempts"].t, f["retry_timeout"].t
+        wasF = z3.Select(s0["F"]["mem"], srv)
+        att0 = z3.Select(s0["F"]["attempts"], srv)
+        ft0 = z3.Select(s0["F"]["ftime"], srv)
+        for o in E.run_function(q, st, [client, values, a0], {"kw": k0}, selfv=me):
+            s = o.st
+            calls = s.ghost["inner_calls"]
+            F, D, R = s.heap[f["_failed_clients"].ref], s.heap[f["_dead_clients"].ref], s.heap[f["hasher"].ref]
+            emit_wf(E, prop, q, s, me, o.kind)
+            Cn = s.heap[f["clients"].ref]
+            E.oblige("%s/%s/frame(the-client-table-is-untouched)%s" % (prop, short(q), E.case_suffix), s,
+                     z3.And(Cn["mem"] == s0["C"]["mem"], Cn["cid"] == s0["C"]["cid"]), func=q)
+            ncalls = len(calls)
+            inner_exc = s.ghost.get("inner_exc")
+            if o.kind == "raise":
+                own = inner_exc is not None and o.val.t.eq(inner_exc.t)
+                E.oblige("%s/%s/post@raise(only-the-servers-own-error-and-never-with-ignore_exc)%s" % (prop, short(q), E.case_suffix), s,
+                         z3.BoolVal(bool(own) and not ign), func=q, meta={"raised": o.val.cls, "site": str(o.site)})
+            if ncalls > 1:
+                E.oblige("%s/%s/at-most-one-contact-per-call%s" % (prop, short(q), E.case_suffix), s, z3.BoolVal(False), func=q)
+                continue
+            if ncalls == 1:
+                t_call = calls[0][4]
+                ok_args = (calls[0][1] == "set_many" and len(calls[0][2]) == 2 and calls[0][2][0] is values and calls[0][2][1] is a0
+                           and list(calls[0][3]) == ["kw"] and calls[0][3]["kw"] is k0 and calls[0][0].t.eq(cid))
+                allowed = z3.Or(z3.Not(wasF), z3.And(att0 < ra, t_call - ft0 > rt), att0 >= ra)
+                E.oblige("%s/%s/contact-only-when-allowed(healthy|retry-window-elapsed|last-probe-at-eviction)-with-the-batch-and-the-callers-arguments%s"
+                         % (prop, short(q), E.case_suffix), s, z3.And(allowed, z3.BoolVal(bool(ok_args))), func=q)
+            else:
+                goal = z3.And(wasF, att0 < ra, z3.BoolVal(o.kind == "return"),
+                              F["mem"] == s0["F"]["mem"], R["mem"] == s0["R"]["mem"], D["mem"] == s0["D"]["mem"])
+                E.oblige("%s/%s/no-contact-only-inside-the-retry-window(state-unchanged)%s" % (prop, short(q), E.case_suffix), s, goal, func=q)
+                continue
+            evicted_first = z3.And(wasF, att0 >= ra)
+            if inner_exc is None:
+                goal = z3.And(z3.BoolVal(o.kind == "return"),
+                              z3.If(evicted_first,
+                                    z3.And(z3.Not(z3.Select(F["mem"], srv)), z3.Select(D["mem"], srv), z3.Not(z3.Select(R["mem"], nm))),
+                                    z3.And(z3.Not(z3.Select(F["mem"], srv)), R["mem"] == s0["R"]["mem"], D["mem"] == s0["D"]["mem"])))
+                E.oblige("%s/%s/success(failure-record-cleared;rotation-kept-unless-evicted)%s" % (prop, short(q), E.case_suffix), s, goal, func=q)
+            else:
+                is_os = E.isinst_pred(inner_exc, "OSError") if not is_subclass(inner_exc.cls, "OSError") else z3.BoolVal(True)
+                recorded = z3.Implies(is_os, z3.Or(z3.And(z3.Select(F["mem"], srv), z3.Select(F["ftime"], srv) >= t_call),
+                                                   z3.And(z3.Select(D["mem"], srv), z3.Not(z3.Select(R["mem"], nm)))))
+                E.oblige("%s/%s/failure(a-connection-failure-is-recorded:failure-record-with-its-time,or-evicted)%s" % (prop, short(q), E.case_suffix), s,
+                         recorded, func=q, meta={"bounded_probing": True})
+                not_single = z3.Implies(z3.And(z3.Not(wasF), ra > 0, is_os),
+                                        z3.And(z3.Select(R["mem"], nm), z3.Select(F["mem"], srv), z3.Select(F["attempts"], srv) == 0))
+                E.oblige("%s/%s/failure(not-evicted-by-a-single-failure-when-retries-are-configured)%s" % (prop, short(q), E.case_suffix), s, not_single, func=q)
+                bypass = same_except(R["mem"], s0["R"]["mem"], nm, S)
+                E.oblige("%s/%s/failure(no-other-server-is-taken-out-of-rotation)%s" % (prop, short(q), E.case_suffix), s, bypass, func=q)
+                if o.kind == "return":
+                    E.oblige("%s/%s/failure(swallowed-only-with-ignore_exc)%s" % (prop, short(q), E.case_suffix), s, z3.BoolVal(bool(ign)), func=q)
+    E.case_suffix = ""
+    E.comprehension_hook, E.opaque_method = saved_hook, saved_om
+    if saved_om is None:
+        del E.opaque_method
 
 
 # ------------------------------------------------------------------ replay: bounded event simulation on the real HashClient
@@ -545,6 +646,7 @@ class FakeClient:
         return ("v", self.server)
     def get(self, key, default=None, **kw): return self._do(key)
     def set(self, key, value, *a, **kw): return self._do(key)
+    def set_many(self, values, *a, **kw): self._do(None); return []
     def close(self): pass
 RT, DT = 2.0, 10.0
 servers = [("10.0.0.1", 1), ("10.0.0.2", 2)]
@@ -573,7 +675,8 @@ for ra in (0, 1, 2):
                 was_in = "10.0.0.1:1" in hc.hasher.nodes
                 first_failure = servers[0] not in hc._failed_clients and servers[0] in failing and was_in
                 try:
-                    hc.get(k0)
+                    if payload.get("opkind") == "set_many": hc.set_many({k0: "v"})
+                    else: hc.get(k0)
                 except Boom:
                     if ign: why = "server error escaped although ignore_exc"
                 except MemcacheError as e:
@@ -620,18 +723,21 @@ _hr = {}
 
 def hash_replay(ob, res, depth=5):
     from pyvc import replay as rp
-    if "r" not in _hr:
+    opkind = "set_many" if "_safely_run_set_many" in ob.id or "set_many" in ob.id else "get"
+    if opkind not in _hr:
         # two sweeps: one failing server with fine-grained time steps (depth 6), and both servers failing (depth 4)
-        r1 = rp.run_real(HASH_REPLAY, {"depth": 6, "recovery": True, "events": ["op", "tick_small", "tick_retry", "tick_dead", "fail0", "heal0"]}, timeout=1800)
+        r1 = rp.run_real(HASH_REPLAY, {"depth": 6 if opkind == "get" else 5, "recovery": True, "opkind": opkind,
+                                       "events": ["op", "tick_small", "tick_retry", "tick_dead", "fail0", "heal0"]}, timeout=1800)
         if not r1.get("failing"):
-            r2 = rp.run_real(HASH_REPLAY, {"depth": 4, "recovery": True, "events": ["op", "tick_retry", "tick_dead", "fail0", "heal0", "fail1"]}, timeout=900)
+            r2 = rp.run_real(HASH_REPLAY, {"depth": 4, "recovery": True, "opkind": opkind, "events": ["op", "tick_retry", "tick_dead", "fail0", "heal0", "fail1"]}, timeout=900)
             r1 = {"cases": (r1.get("cases") or 0) + (r2.get("cases") or 0), "failing": r2.get("failing"), **({"error": r2["error"]} if "error" in r2 else {})}
-        _hr["r"] = r1
-    obs = _hr["r"]
+        _hr[opkind] = r1
+    obs = _hr[opkind]
     from pyvc.replay import failing_of
     if failing_of(obs):
         obs = dict(obs, failing=failing_of(obs))
-        return {"reproduced": True, "call": "HashClient event sequence (fake clock, failing fake clients)", "input": obs["failing"], "cases_tried": obs.get("cases")}
+        return {"reproduced": True, "call": "HashClient event sequence (fake clock, failing fake clients; operation = %s)" % opkind, "input": obs["failing"],
+                "cases_tried": obs.get("cases")}
     return {"reproduced": False, "searched": obs}
 
 
@@ -721,6 +827,7 @@ def verify_retry_dead(E, prop):
                  z3.ForAll([j], z3.Implies(z3.And(0 <= j, j < n), z3.And(z3.Select(D0["mem"], a[j]), expired(a[j], now.t))))),
                 ("re-added-servers-are-in-rotation", z3.ForAll([j], z3.Implies(z3.And(0 <= j, j < i), z3.Select(R["mem"], node_name(a[j]))))),
                 ("rotation-only-grows", z3.ForAll([nmv], z3.Implies(z3.Select(s0["R"]["mem"], nmv), z3.Select(R["mem"], nmv)))),
+                ("client-table-only-grows", z3.ForAll([nmv], z3.Implies(z3.Select(s0["C"]["mem"], nmv), z3.Select(s.heap[f["clients"].ref]["mem"], nmv)))),
                 ("only-expired-dead-servers-were-re-added", z3.And([z3.And(z3.Select(D0["mem"], x), expired(x, now.t)) for x in s.ghost.get("added", [])] or [z3.BoolVal(True)]))]
     E.loop_specs[(q, 1)] = LoopSpec(inv1, shape="for $0 in $1", havoc=havoc1)
     for o in E.run_function(q, st, [], {}, selfv=me):
@@ -742,6 +849,8 @@ def verify_retry_dead(E, prop):
                      z3.Implies(due, f_ldc(s, me) == now), func=q)
             E.oblige("%s/%s/post@ret(no-server-leaves-rotation)" % (prop, short(q)), s,
                      z3.ForAll([nmv], z3.Implies(z3.Select(s0["R"]["mem"], nmv), z3.Select(R["mem"], nmv))), func=q)
+            E.oblige("%s/%s/post@ret(no-client-leaves-the-client-table)" % (prop, short(q)), s,
+                     z3.ForAll([nmv], z3.Implies(z3.Select(s0["C"]["mem"], nmv), z3.Select(s.heap[f["clients"].ref]["mem"], nmv))), func=q)
     del E.contracts[H + ".add_server"]
 
 
@@ -763,7 +872,7 @@ def retry_dead_contract(E, st, args, kwargs, selfv, site):
     key-addressed paths (the last clause is not mechanised, see NOT_COVERED of C13)."""
     f = st.heap[selfv.ref]
     R, C, D = st.heap[f["hasher"].ref], st.heap[f["clients"].ref], st.heap[f["_dead_clients"].ref]
-    oldR = R["mem"]
+    oldR, oldC = R["mem"], C["mem"]
     R["mem"] = z3.Const(fresh_name("R"), z3.ArraySort(S, B))
     C["mem"] = z3.Const(fresh_name("C"), z3.ArraySort(S, B))
     C["cid"] = z3.Const(fresh_name("cid"), z3.ArraySort(S, I))
@@ -772,7 +881,8 @@ def retry_dead_contract(E, st, args, kwargs, selfv, site):
     D["n"] = z3.Int(fresh_name("ndead"))
     R["gen"] = R["gen"] + 1000
     nmv = z3.String("rdn")
-    st.assume(z3.ForAll([nmv], z3.Implies(z3.Select(oldR, nmv), z3.Select(R["mem"], nmv))))
+    st.assume(z3.ForAll([nmv], z3.Implies(z3.Select(oldR, nmv), z3.Select(R["mem"], nmv))),
+              z3.ForAll([nmv], z3.Implies(z3.Select(oldC, nmv), z3.Select(C["mem"], nmv))))
     for _l, g in wf_hash(st, selfv):
         if _l in ("nodes-have-clients", "client-table-is-keyed-by-the-client's-own-server"):
             st.assume(g)
